@@ -325,7 +325,7 @@ pub fn run(args: &Args) -> i32 {
         "C02" => "every program of F1-F6, F8 (repeated sub-plans), F9 (multi-selection atoms over a ternary relation) and F10 (bound recursive queries in the form the magic-sets rewrite acts on) x every small EDB (quick: at most 10 per program, fixed stride) x all 32 optimizer switch combinations; all 32 answers must be equal and equal to R1. evaluation = one engine execution; non-trivial = distinct (program,EDB) with non-empty reference answer",
         "C03" => "programs of F1,F2,F5,F6 x EDBs of up to 16 tuples over D={1..4} x workers in {1,2,3,4,8}; answer(w) must equal answer(1) and R1; non-trivial = distinct (program,EDB) with non-empty answer",
         "C06" => "all aggregate programs of F6 x all small EDBs x all 32 optimizer configurations; engine vs R1 aggregate semantics (distinct body valuations); non-trivial = distinct (program,EDB) with non-empty answer",
-        "C07" => "every accepted program of F1-F10 x EDBs; structural check of the answer (no duplicate tuple, arity = head arity, head constants verbatim); non-trivial = distinct (program,EDB) with non-empty engine answer",
+        "C07" => "every accepted program of F1-F10 x EDBs; structural check of the answer (no duplicate tuple, arity = head arity, head constants verbatim); constants leg: int / float / string / bool head constants in five shapes where two constants could be mixed up (two union branches, two rules joined, two constants in one head, the same constant twice, a computed column differing in a constant) x 2 EDBs x all 32 configurations, exact expected rows; non-trivial = distinct (program,EDB) with non-empty engine answer",
         "C08" => "programs with >=1 intermediate rule (F2-F4; +F1 thorough) x EDBs x limits {1,2,3,5,|A|,|A|+1}; result must be a duplicate-free subset of the unlimited answer A of size min(N,|A|); non-trivial = distinct (program,EDB,N) with non-empty A",
         _ => "",
     });
@@ -524,7 +524,78 @@ pub fn run(args: &Args) -> i32 {
             }
         }
     });
+    if prop == "C07" {
+        constants_leg(&run);
+    }
     run.finish()
+}
+
+/// C07, constants leg: "head constants reproduced verbatim" for constants of every kind, in the shapes where a
+/// constant could be mixed up with another one — two rules (or two union branches) that differ in nothing but a
+/// head constant, a join of two such relations, two constants in one head, a computed column that differs in a
+/// constant only — under all 32 optimizer configurations.
+fn constants_leg(run: &Run) {
+    // (kind, literal 1, literal 2, value 1, value 2)
+    let kinds: Vec<(&str, &str, &str, Value, Value)> = vec![
+        ("int", "7", "8", Value::Int64(7), Value::Int64(8)),
+        ("float", "0.25", "0.75", Value::Float64(0.25), Value::Float64(0.75)),
+        ("string", "\"a\"", "\"b\"", Value::string("a"), Value::string("b")),
+        ("bool", "true", "false", Value::Bool(true), Value::Bool(false)),
+    ];
+    let edbs: Vec<Db> = vec![[("e".to_string(), [vec![1, 2]].into_iter().collect())].into_iter().collect(), [("e".to_string(), [vec![1, 2], vec![2, 1]].into_iter().collect())].into_iter().collect()];
+    let mut cases = 0u64;
+    for (kind, l1, l2, v1, v2) in &kinds {
+        for edb in &edbs {
+            let xs: Vec<i64> = edb["e"].iter().map(|r| r[0]).collect();
+            // (shape, program, expected rows)
+            let mut shapes: Vec<(&str, String, BTreeSet<Vec<Value>>)> = vec![];
+            shapes.push(("two_union_branches", format!("t(X, {l1}) <- e(X, _)\nt(X, {l2}) <- e(X, _)\nq(X, C) <- t(X, C)"), xs.iter().flat_map(|x| vec![vec![Value::Int64(*x), v1.clone()], vec![Value::Int64(*x), v2.clone()]]).collect()));
+            shapes.push(("two_rules_joined", format!("lo(X, {l1}) <- e(X, _)\nhi(X, {l2}) <- e(X, _)\nq(X, A, B) <- lo(X, A), hi(X, B)"), xs.iter().map(|x| vec![Value::Int64(*x), v1.clone(), v2.clone()]).collect()));
+            shapes.push(("two_constants_in_one_head", format!("q(X, {l1}, {l2}) <- e(X, _)"), xs.iter().map(|x| vec![Value::Int64(*x), v1.clone(), v2.clone()]).collect()));
+            shapes.push(("same_constant_twice", format!("lo(X, {l1}) <- e(X, _)\nhi(X, {l1}) <- e(X, _)\nq(X, A, B) <- lo(X, A), hi(X, B)"), xs.iter().map(|x| vec![Value::Int64(*x), v1.clone(), v1.clone()]).collect()));
+            if *kind == "int" || *kind == "float" {
+                let f = |v: &Value, y: i64| -> Value {
+                    match v {
+                        Value::Int64(c) => Value::Int64(y * c),
+                        Value::Float64(c) => Value::Float64(y as f64 * c),
+                        _ => unreachable!(),
+                    }
+                };
+                shapes.push(("computed_column_differs_in_constant", format!("lo(X, V) <- e(X, Y), V = Y * {l1}\nhi(X, V) <- e(X, Y), V = Y * {l2}\nq(X, A, B) <- lo(X, A), hi(X, B)"), edb["e"].iter().map(|r| vec![Value::Int64(r[0]), f(v1, r[1]), f(v2, r[1])]).collect()));
+            }
+            for (shape, text, want) in shapes {
+                for cfg in all_cfgs() {
+                    cases += 1;
+                    run.evaluations.fetch_add(1, std::sync::atomic::Ordering::Relaxed);
+                    let got = run_engine(&text, edb, cfg, 1, 0);
+                    let case = json!({"leg": "constants", "kind": kind, "shape": shape, "program_text": text, "edb": fmt_db(edb), "cfg_name": cfg_name(cfg)});
+                    match got {
+                        EngineOut::Ok(ts) => {
+                            // numeric columns are compared by value (an integer may come back as Int32 or Int64)
+                            let norm = |v: &Value| -> String {
+                                match v {
+                                    Value::Int32(i) => format!("int {i}"),
+                                    Value::Int64(i) => format!("int {i}"),
+                                    Value::Float64(f) => format!("float {f:?}"),
+                                    other => format!("{other:?}"),
+                                }
+                            };
+                            let g: BTreeSet<Vec<String>> = ts.iter().map(|t| t.values().iter().map(norm).collect()).collect();
+                            let w: BTreeSet<Vec<String>> = want.iter().map(|r| r.iter().map(norm).collect()).collect();
+                            if g.len() != ts.len() {
+                                run.violation(&format!("constants:{kind}:{shape}:duplicate_tuple"), case, format!("program [{}] on {} ({}): answer has duplicates {:?}", text.replace('\n', " ; "), fmt_db(edb), cfg_name(cfg), ts.iter().map(|t| t.to_string()).collect::<Vec<_>>()));
+                            } else if g != w {
+                                run.violation(&format!("constants:{kind}:{shape}:constant_not_reproduced"), case, format!("program [{}] on {} ({}): expected {:?} got {:?}", text.replace('\n', " ; "), fmt_db(edb), cfg_name(cfg), w, g));
+                            }
+                        }
+                        EngineOut::Err(e) => run.violation(&format!("constants:{kind}:{shape}:rejected"), case, format!("program [{}] ({}): {e}", text.replace('\n', " ; "), cfg_name(cfg))),
+                        EngineOut::Panic(e) => run.violation(&format!("constants:{kind}:{shape}:panic"), case, format!("program [{}] ({}): {e}", text.replace('\n', " ; "), cfg_name(cfg))),
+                    }
+                }
+            }
+        }
+    }
+    run.put("constants_leg_executions", json!(cases));
 }
 
 fn replay(args: &Args, path: &std::path::Path) -> i32 {
